@@ -698,6 +698,7 @@ func ecRandomHistory(e *Env, maxLen int) []ecOp {
 	ver := int64(1)
 	clock := int64(rng.Intn(5)) - 2
 	hot := int64(rng.Intn(ecNames)) // most traffic goes to one name so that histories interact
+	lastPut := map[int64]int64{}    // the version most recently put into some loader, per name
 	name := func() int64 {
 		if rng.Intn(4) != 0 {
 			return hot
@@ -731,7 +732,9 @@ func ecRandomHistory(e *Env, maxLen int) []ecOp {
 			}
 		case k < 54:
 			ver++
-			ops = append(ops, op("put", ldr, name(), ver, mtime()))
+			nm := name()
+			lastPut[nm] = ver
+			ops = append(ops, op("put", ldr, nm, ver, mtime()))
 		case k < 60:
 			ops = append(ops, op("touch", ldr, name(), mtime()))
 		case k < 67:
@@ -743,11 +746,22 @@ func ecRandomHistory(e *Env, maxLen int) []ecOp {
 		case k < 89:
 			ops = append(ops, op("dev", int64(rng.Intn(2))))
 		case k < 93:
-			ver++
-			ops = append(ops, op("regstr", name(), ver))
+			// a registration may carry exactly the text a loader holds (or held) for that name
+			nm := name()
+			v, same := lastPut[nm]
+			if !same || rng.Intn(3) != 0 {
+				ver++
+				v = ver
+			}
+			ops = append(ops, op("regstr", nm, v))
 		case k < 96:
-			ver++
-			ops = append(ops, op("regtpl", name(), ver))
+			nm := name()
+			v, same := lastPut[nm]
+			if !same || rng.Intn(3) != 0 {
+				ver++
+				v = ver
+			}
+			ops = append(ops, op("regtpl", nm, v))
 		case k < 98 && nl < 4:
 			ops = append(ops, op("addloader", int64(rng.Intn(2))))
 			nl++
